@@ -107,6 +107,8 @@ class Flattener:
             return None
         st = _State(self, src)
         st.run()
+        if self.expand:
+            st.int_matches()
         if self.thread:
             st.late_predicates()
             st.thread()
@@ -377,6 +379,8 @@ class _State:
             if depth >= self.fl.max_depth:
                 continue
             c = t["callee"]
+            if not c.get("resolved") and c.get("trait") and c.get("self_ty"):
+                self._resolve_trait_call(c)
             path = c.get("resolved") or c["def"]
             if self.fl.loops and c.get("krate") in ("core", "std", "alloc") and c["def"] in ("std::iter::Iterator::try_for_each", "std::iter::Iterator::for_each") \
                     and self._expand_iter_loop(i, b, t, c, depth, stack):
@@ -396,6 +400,85 @@ class _State:
                 self._inline_await(i, b, t, callee, co, depth, stack)
                 continue
             self._inline_sync(i, b, t, callee, depth, stack)
+
+    def _resolve_trait_call(self, c):
+        """A call of a crate-local trait method on a type parameter of an inlined generic helper: once the parameter is
+        replaced by the caller's type, the impl that the call dispatches to can be looked up."""
+        st = re.sub(r"<.*$", "", (c.get("self_ty") or "").lstrip("&").replace("mut ", "").strip())
+        if not st or not re.match(r"[a-z_]+::", st):
+            return
+        idx = self.facts.__dict__.get("_impl_index")
+        if idx is None:
+            idx = {}
+            for im in self.facts.impls:
+                tr = im.get("trait")
+                if tr and im.get("self_adt"):
+                    for it in im["items"]:
+                        if it["kind"] == "fn":
+                            idx[(tr["path"], re.sub(r"<.*$", "", im["self_adt"]), it["name"])] = it["def"]
+            self.facts.__dict__["_impl_index"] = idx
+        d = idx.get((c["trait"], st, c.get("name")))
+        if d:
+            c["resolved"] = d
+
+    def int_matches(self):
+        """`match n { A => .., B => .., _ => .. }` on a computed integer is the chain `if n == A { .. } else if n == B { .. }
+        else { .. }`: a switch with several listed integer values (not a discriminant read, not a bool) is rewritten
+        into that chain of comparisons, the one form the rules read."""
+        for i in range(len(self.blocks)):
+            b = self.blocks[i]
+            t = b["term"]
+            if b["cleanup"] or t is None or t["k"] != "switch" or t.get("ty") in ("bool", "isize") or len(t["targets"]) < 2 or t["otherwise"] is None:
+                continue
+            op = t["op"]
+            if op.get("k") not in ("move", "copy") or op["pl"]["p"]:
+                continue
+            l = op["pl"]["l"]
+            d = self.single_def(l)
+            if d is not None and d["rv"]["k"] == "discr":
+                continue
+            if not all(isinstance(v, int) for v, _ in t["targets"]):
+                continue
+            line = t.get("line", 0)
+            ty = t.get("ty") or self.locals[l]["ty"]
+            nxt = t["otherwise"]
+            # build from the last listed value backwards
+            for v, tgt in reversed(t["targets"][1:]):
+                flag = self.new_local("bool")
+                nb = self.new_block([_assign(_pl(flag), {"k": "bin", "op": "Eq", "checked": False, "a": _cp(l), "b": {"k": "const", "ty": ty, "val": v, "uneval": None, "fn": None}}, line)],
+                                    {"k": "switch", "op": _mv(flag), "ty": "bool", "targets": [[0, nxt]], "otherwise": tgt, "line": line, "exp": False, "expanded": "int_match"}, i)
+                nxt = nb
+            v0, tgt0 = t["targets"][0]
+            flag = self.new_local("bool")
+            b["stmts"] = b["stmts"] + [_assign(_pl(flag), {"k": "bin", "op": "Eq", "checked": False, "a": _cp(l), "b": {"k": "const", "ty": ty, "val": v0, "uneval": None, "fn": None}}, line)]
+            b["term"] = {"k": "switch", "op": _mv(flag), "ty": "bool", "targets": [[0, nxt]], "otherwise": tgt0, "line": line, "exp": False, "expanded": "int_match"}
+
+    def _expand_checked_arith(self, i, b, t, c):
+        """`a.checked_sub(b)` is `if a < b { None } else { Some(a - b) }` (checked_add: by the type's maximum)."""
+        m = re.search(r"num::<impl (u8|u16|u32|u64|usize)>::checked_(sub|add)$", c["def"])
+        if not m or len(t["ops"]) != 2:
+            return False
+        ty, what = m.group(1), m.group(2)
+        line = t.get("line", 0)
+        dest, target = t["dest"], t["t"]
+        a, bop = t["ops"]
+        flag = self.new_local("bool")
+        res = self.new_local(ty)
+        none_b = self.new_block([_assign(copy.deepcopy(dest), _adt(OPTION, "None", 0, []), line)], _goto(target, line), i)
+        if what == "sub":
+            some_b = self.new_block([_assign(_pl(res), {"k": "bin", "op": "Sub", "checked": False, "a": copy.deepcopy(a), "b": copy.deepcopy(bop)}, line),
+                                     _assign(copy.deepcopy(dest), _adt(OPTION, "Some", 1, [_mv(res)]), line)], _goto(target, line), i)
+            b["stmts"] = b["stmts"] + [_assign(_pl(flag), {"k": "bin", "op": "Lt", "checked": False, "a": copy.deepcopy(a), "b": copy.deepcopy(bop)}, line)]
+            b["term"] = {"k": "switch", "op": _mv(flag), "ty": "bool", "targets": [[0, some_b]], "otherwise": none_b, "line": line, "exp": False, "expanded": c["def"]}
+            return True
+        mx = {"u8": 2 ** 8 - 1, "u16": 2 ** 16 - 1, "u32": 2 ** 32 - 1, "u64": 2 ** 64 - 1, "usize": 2 ** 64 - 1}[ty]
+        room = self.new_local(ty)
+        some_b = self.new_block([_assign(_pl(res), {"k": "bin", "op": "Add", "checked": False, "a": copy.deepcopy(a), "b": copy.deepcopy(bop)}, line),
+                                 _assign(copy.deepcopy(dest), _adt(OPTION, "Some", 1, [_mv(res)]), line)], _goto(target, line), i)
+        b["stmts"] = b["stmts"] + [_assign(_pl(room), {"k": "bin", "op": "Sub", "checked": False, "a": {"k": "const", "ty": ty, "val": mx, "uneval": None, "fn": None}, "b": copy.deepcopy(bop)}, line),
+                                   _assign(_pl(flag), {"k": "bin", "op": "Gt", "checked": False, "a": copy.deepcopy(a), "b": _cp(room)}, line)]
+        b["term"] = {"k": "switch", "op": _mv(flag), "ty": "bool", "targets": [[0, some_b]], "otherwise": none_b, "line": line, "exp": False, "expanded": c["def"]}
+        return True
 
     def late_predicates(self):
         """Second phase, once every combinator has been expanded: `is_some()` / `is_none()` / `is_ok()` / `is_err()` on a
@@ -526,6 +609,8 @@ class _State:
     # ------------------------------------------------------------------------------------ std combinators
     def _expand(self, i, b, t, c, depth, stack):
         name = c["def"]
+        if "::checked_" in name and self._expand_checked_arith(i, b, t, c):
+            return True
         if re.match(r"std::task::Poll::<[^>]*>::map$", name):
             return self._expand_poll_map(i, b, t, c, depth, stack)
         if name == "std::ops::Try::branch" and self.fl.thread:
